@@ -107,6 +107,11 @@ func runReplicas(r *hx.R, n int, w *hx.W, _ []string) error {
 		for _, p := range op.Whitelist {
 			a.OracleKeeper.WhitelistedPairs.Insert(ctx, p)
 		}
+		// an oracle reward pool that does not divide evenly among the winners of a vote period (1,000,003 unibi per period):
+		// rewardWinners then really distributes, with truncation remainders
+		if err := a.OracleKeeper.AllocateRewards(ctx, authtypes.FeeCollectorName, sdk.NewCoins(sdk.NewInt64Coin("unibi", 1_000_003_000)), 1000); err != nil {
+			return fmt.Errorf("allocate oracle rewards: %w", err)
+		}
 		a.BankKeeper.SetDenomMetaData(ctx, mkMetaPc("ulog"))
 		_ = testapp.FundAccount(a.BankKeeper, ctx, addr(0), sdk.NewCoins(sdk.NewInt64Coin("ulog", 1_000_000)))
 		a.EndBlock(abci.RequestEndBlock{Height: 1}) // staking validator set update of the genesis block
